@@ -27,6 +27,7 @@ structure Env where
   prop : Nat := 0
   inv : Nat := 0
   invEvals : Nat := 0
+  invDeepSkipped : Nat := 0
   multiBlock : Nat := 0
   errCases : Nat := 0
   /-- input distribution (sums over cases) -/
@@ -49,7 +50,7 @@ structure Env where
   groupNs : Nat := 0
 
 def Env.statLine (e : Env) : String :=
-  s!"STAT cases={e.cases} built={e.built} err_cases={e.errCases} haystacks={e.hays} haystacks_with_match={e.haysWithMatch} searches={e.searches} transitions_compared={e.trans} multi_block={e.multiBlock} inv_evals={e.invEvals} corr={e.corr} prop={e.prop} inv={e.inv} kind_standard={e.kind0} kind_leftmost_longest={e.kind1} kind_leftmost_first={e.kind2} charwise={e.charwise} err_invalid_argument={e.errInvalidArg} err_duplicate_pattern={e.errDuplicate} err_invalid_conversion={e.errConversion} patterns_total={e.patsTotal} haystack_bytes_total={e.hayBytesTotal} elements_total={e.elemsTotal} matches_total={e.matchesTotal}"
+  s!"STAT cases={e.cases} built={e.built} err_cases={e.errCases} haystacks={e.hays} haystacks_with_match={e.haysWithMatch} searches={e.searches} transitions_compared={e.trans} multi_block={e.multiBlock} inv_evals={e.invEvals} inv_deep_skipped={e.invDeepSkipped} corr={e.corr} prop={e.prop} inv={e.inv} kind_standard={e.kind0} kind_leftmost_longest={e.kind1} kind_leftmost_first={e.kind2} charwise={e.charwise} err_invalid_argument={e.errInvalidArg} err_duplicate_pattern={e.errDuplicate} err_invalid_conversion={e.errConversion} patterns_total={e.patsTotal} haystack_bytes_total={e.hayBytesTotal} elements_total={e.elemsTotal} matches_total={e.matchesTotal}"
 
 def showMatches (ms : List (Match Int)) : String :=
   " ".intercalate (ms.map fun m => s!"{m.start},{m.stop},{m.value}")
@@ -313,7 +314,11 @@ def checkInvs (c : Case) (da : DA Int) (LPret : List (LPat Int)) (a : Acc) : Acc
   if !da.countInv LPret then
     a := a.inv "CountInv" c.id s!"num_states={da.numStates} trie_nodes={(da.nodes LPret).length}"
   if !da.sizeInv LPret then a := a.inv "SizeInv" c.id s!"max key length {maxKeyLen LPret} / patterns {LPret.length} vs elements {da.states.size} / outputs {da.outputs.size}"
-  if c.kind == 0 then
+  -- the structural invariants cost |nodes| * |labels| * depth^2: very deep tries (scale cases of the
+  -- `perm` profile, patterns of several hundred items) are left to K-build and the searches
+  if maxKeyLen LPret > 200 then
+    a := { a with env := { a.env with invDeepSkipped := a.env.invDeepSkipped + 1 } }
+  else if c.kind == 0 then
     if !da.tableInv LPret then a := a.inv "TableInv" c.id "child/fail/output structure does not mirror the trie of the patterns"
   else
     if !da.leftmostInv LPret then a := a.inv "LeftmostInv" c.id "(G1)/(G3) fails at some node"
